@@ -89,6 +89,10 @@ Fixpoint upd {A} (l : list A) (i : nat) (x : A) : list A :=
   | y :: r, S k => y :: upd r k x
   end.
 
+(** is reading from the transport paused after these events? (transport.pauseProducing / resumeProducing) *)
+Definition net_paused (b : bool) (l : list ev) : bool :=
+  fold_left (fun b e => match e with ENetPause => true | ENetResume => false | _ => b end) l b.
+
 Section WithStream.
   Variable eager : N.                 (* _optimisticEagerReadSize *)
   Variable sync : bool.               (* the transport reports a loss synchronously from loseConnection() *)
@@ -389,6 +393,51 @@ Section WithStream.
                           || (s_handling s && negb (s_handling s1)) then after (t_now t) tmo
                   else t_dl t in
         (mkT s1 (t_now t) dl (if s_lost s1 then None else t_ab t), e1)
+    end.
+
+  (** ---------- the peer behind a socket ----------
+      A TCP transport delivers what the peer sends - bytes, and its close - only while it is reading; while the channel
+      has paused it (transport.pauseProducing()) bytes wait in the kernel and the close is not noticed.  [Op (Data n)]
+      and [Op Lose] are what the PEER does; [sstep] delivers them when the transport reads, at the latest right after
+      the operation that makes it read again. *)
+  Record sst := mkK {
+    k_t : tst;
+    k_paused : bool;           (* transport.pauseProducing() is in effect *)
+    k_queued : N;              (* bytes the peer sent that were not read yet *)
+    k_peerclosed : bool }.     (* the peer closed; the close may not have been noticed yet *)
+
+  Definition sst0 : sst := mkK tst0 false 0 false.
+
+  (** after an operation produced [evs]: if the transport reads again, the waiting bytes and then the close arrive *)
+  Definition settle (k : sst) (t1 : tst) (evs : list ev) (peerclosed : bool) : sst * list ev :=
+    let p := net_paused (k_paused k) evs in
+    let '(t2, e2, q2, p2) :=
+      if negb p && (0 <? k_queued k)%N
+      then let (t2, e2) := tstep t1 (Op (Data (k_queued k))) in (t2, e2, 0%N, net_paused p e2)
+      else (t1, [], k_queued k, p) in
+    let (t3, e3) :=
+      if negb p2 && peerclosed && negb (s_lost (t_st t2)) then tstep t2 (Op Lose) else (t2, []) in
+    (mkK t3 (net_paused p2 e3) q2 peerclosed, evs ++ e2 ++ e3).
+
+  Definition sstep (k : sst) (o : top) : sst * list ev :=
+    match o with
+    | Op (Data n) =>
+        if k_paused k
+        then (if s_lost (t_st (k_t k)) || s_closing (t_st (k_t k)) then (k, [])
+              else (mkK (k_t k) true (k_queued k + n) (k_peerclosed k), []))
+        else let (t1, e1) := tstep (k_t k) o in settle k t1 e1 (k_peerclosed k)
+    | Op Lose =>
+        if k_paused k
+        then (mkK (k_t k) true (k_queued k) true, [])
+        else let (t1, e1) := tstep (k_t k) o in settle k t1 e1 true
+    | _ => let (t1, e1) := tstep (k_t k) o in settle k t1 e1 (k_peerclosed k)
+    end.
+
+  Fixpoint srun (k : sst) (ops : list top) : sst * list (list ev) :=
+    match ops with
+    | [] => (k, [])
+    | o :: r => let (k1, e) := sstep k o in
+                let (k2, es) := srun k1 r in (k2, e :: es)
     end.
 
   Fixpoint trun (t : tst) (ops : list top) : tst * list (list ev) :=
